@@ -166,7 +166,7 @@ def _diff(a, b):
 class C17(HistoryCheck):
     id = "C17"
     profile = "hostile"
-    profiles = ["hostile", "hostile", "mixed", "closers"]
+    profiles = ["hostile", "hostile", "hostile_crowd", "mixed", "closers", "shared"]
     rule = ("Hypothesis draws intent lists (profile 'hostile': malformed, out-of-order, decorated and "
             "Unicode commands interleaved with valid traffic over several connections/apps, welcome options "
             "drawn per world); every frame of every command is checked against the protocol-discipline oracle. "
